@@ -34,6 +34,8 @@ CONSTANTS
     Slots,          \* route slots: records [host |-> STRING, path |-> Seq(STRING)]
     Tables,         \* the tables SetTable may install: functions Slots -> Backends \cup {""}
     CallUniverse,   \* call descriptions, see GrpcProxy_MC
+    HostOf(_),      \* dsthost value -> the route hosts it matches (documented host matching: letter case and the
+                    \* default port do not matter, a route host may be a glob pattern); "" -> {""}
     BurstUniverse,  \* call descriptions used for bursts of overlapping first calls
     BurstSizes,     \* how many calls overlap in a burst
     MaxCalls, MaxSets, MaxTicks, MaxDowns, MaxBursts,
@@ -73,7 +75,7 @@ IsPrefix(p, q) == Len(p) <= Len(q) /\ \A i \in 1..Len(p) : p[i] = q[i]
 
 \* Routing as documented: routes of the named host first, else the host-less routes;
 \* among the candidates the longest matching path prefix.
-Cands(t, h, path) == {s \in Slots : t[s] # NoBackend /\ s.host = h /\ IsPrefix(s.path, path)}
+Cands(t, h, path) == {s \in Slots : t[s] # NoBackend /\ s.host \in HostOf(h) /\ IsPrefix(s.path, path)}
 Longest(S) == CHOOSE s \in S : \A u \in S : Len(u.path) <= Len(s.path)
 Best(t, h, path) ==
     IF h # "" /\ Cands(t, h, path) # {} THEN t[Longest(Cands(t, h, path))]
